@@ -19,6 +19,14 @@ import (
 type job struct {
 	sc     *Scenario
 	faults bool
+	// modes of interruption (nil = all three); local = the owning shard runs
+	// the clean run and all its interruption positions (no redundant clean
+	// runs in the other shards; used where a clean run is expensive or the
+	// positions are few); afterFirstFilter = only positions after the first
+	// FilterBlocks call (real batch size: after the first 2000-block batch)
+	modes            []string
+	local            bool
+	afterFirstFilter bool
 }
 
 // grid of PART B: hours relative to the STORED birthday; the thresholds of
@@ -80,7 +88,7 @@ func generate(role string, thorough bool, only map[string]bool, emit func(job)) 
 			for n := 1; n <= 2; n++ {
 				for W := uint32(1); W <= 3; W++ {
 					for ci, cb := range combos {
-						if !thorough && W == 3 && n == 2 && ci%2 == 1 {
+						if !thorough && W == 3 && n == 2 && ci%4 != 0 {
 							continue
 						}
 						multiPair("A3", W, cb, n, 1, 0, ci%4 == 1, plain)
@@ -166,6 +174,21 @@ func generate(role string, thorough bool, only map[string]bool, emit func(job)) 
 				}
 			}
 		}
+		// A6: resume after a committed batch with asymmetric branch usage: one
+		// branch of a scope is ahead of the other by W or W+1 keys when the
+		// recovery is interrupted; the next payments on both branches follow.
+		// Stop+reopen at every backend call position, both batch-cut parities.
+		if wants(only, "A6") {
+			scopes := []int{0}
+			modes := []string{"restart"}
+			if thorough {
+				scopes = []int{0, 1, 2, 3}
+				modes = []string{"restart", "retry", "lock"}
+			}
+			asymBases("A6", scopes, func(si int) bool { return si%2 == 1 }, func(int) []int { return []int{0, 1} }, func(sc *Scenario) {
+				emit(job{sc: sc, faults: true, modes: modes, local: true})
+			})
+		}
 		return
 	}
 	// ---- real recoveryBatchSize
@@ -209,6 +232,18 @@ func generate(role string, thorough bool, only map[string]bool, emit func(job)) 
 				}
 			}
 		}
+	}
+	// R3: the asymmetric resume family with the real constant: the blocks before
+	// the interruption close the first 2000-block batch, the later ones are in
+	// the second; stop+reopen at every call position after the first FilterBlocks.
+	if wants(only, "R3") {
+		scopes := []int{0}
+		if thorough {
+			scopes = []int{0, 2}
+		}
+		asymBases("R3", scopes, func(si int) bool { return si == 2 }, func(npre int) []int { return []int{2000 - npre} }, func(sc *Scenario) {
+			emit(job{sc: sc, faults: true, modes: []string{"restart"}, local: true, afterFirstFilter: true})
+		})
 	}
 	// B: all monotone time-stamp sequences (genesis first) on the threshold grid
 	if wants(only, "B") {
@@ -362,7 +397,7 @@ func clauseRank(sig string) int {
 }
 
 func runJob(run *ev.Run, st *stats, worker int, ref *Ref, j job, mine bool, faultCtr *int) {
-	if !j.faults && !mine {
+	if (!j.faults || j.local) && !mine {
 		return
 	}
 	m, err := buildModel(j.sc, ref)
@@ -378,10 +413,27 @@ func runJob(run *ev.Run, st *stats, worker int, ref *Ref, j job, mine bool, faul
 	if !j.faults || len(res.fails) > 0 {
 		return
 	}
-	for p := 1; p <= res.calls; p++ {
-		for _, mode := range []string{"retry", "restart", "lock"} {
-			own := ev.Mine(*faultCtr)
-			*faultCtr++
+	modes := j.modes
+	if modes == nil {
+		modes = []string{"retry", "restart", "lock"}
+	}
+	first := 1
+	if j.afterFirstFilter {
+		first = res.calls + 1
+		for i, c := range res.trace {
+			if strings.HasPrefix(c, "filter:") {
+				first = i + 2
+				break
+			}
+		}
+	}
+	for p := first; p <= res.calls; p++ {
+		for _, mode := range modes {
+			own := mine
+			if !j.local {
+				own = ev.Mine(*faultCtr)
+				*faultCtr++
+			}
 			if !own {
 				continue
 			}
@@ -396,6 +448,70 @@ func runJob(run *ev.Run, st *stats, worker int, ref *Ref, j job, mine bool, faul
 			st.faultPositions++
 			account(run, st, &c, r2, m)
 			st.groupMs[c.Group+"-faults"] += cpuMs() - c1
+		}
+	}
+}
+
+// asymmetric builds a base pattern for the resume group A6/R3: before the
+// interruption one branch of a scope gets ahead of the other by d keys
+// (behind = number of keys the other branch has used: 0 or 1), afterwards the
+// branch that was ahead is paid at its next in-window index (jump: at the far
+// end of the window), the other branch at its next index, and one block later
+// the ahead branch once more. npre returns the number of blocks before that.
+func asymmetric(group string, W uint32, si int, d int, aheadInternal bool, behind int, jump bool, lead int, unlocked bool) (*Scenario, int) {
+	sc := &Scenario{Group: group, W: W, Pairs: []Pair{AllPairs[2*si], AllPairs[2*si+1]}, Lead: lead, Unlocked: unlocked}
+	ai, bi := 0, 1
+	if aheadInternal {
+		ai, bi = 1, 0
+	}
+	c := behind + d // key count the ahead branch reaches
+	npre := 0
+	for k := 0; ; k++ {
+		idx := (k+1)*int(W) - 1
+		if idx > c-1 {
+			idx = c - 1
+		}
+		blk := []Pay{{ai, uint32(idx)}}
+		if k == 0 && behind == 1 {
+			blk = append(blk, Pay{bi, 0})
+		}
+		sort.Slice(blk, func(i, j int) bool { return blk[i].Pair < blk[j].Pair })
+		sc.Blocks = append(sc.Blocks, blk)
+		npre++
+		if idx == c-1 {
+			break
+		}
+	}
+	next := c
+	if jump {
+		next = c + int(W) - 1
+	}
+	post := []Pay{{ai, uint32(next)}, {bi, uint32(behind)}}
+	sort.Slice(post, func(i, j int) bool { return post[i].Pair < post[j].Pair })
+	sc.Blocks = append(sc.Blocks, post, []Pay{{ai, uint32(next + 1)}})
+	return sc, npre
+}
+
+// asymBases enumerates the asymmetric family for the given scopes.
+func asymBases(group string, scopes []int, unlockedFor func(si int) bool, leadOf func(npre int) []int, f func(*Scenario)) {
+	for W := uint32(1); W <= 3; W++ {
+		for _, si := range scopes {
+			for _, d := range []int{int(W), int(W) + 1} {
+				for _, aheadInt := range []bool{true, false} {
+					for behind := 0; behind <= 1; behind++ {
+						for _, jump := range []bool{false, true} {
+							if jump && W == 1 {
+								continue
+							}
+							_, npre := asymmetric(group, W, si, d, aheadInt, behind, jump, 0, false)
+							for _, lead := range leadOf(npre) {
+								sc, _ := asymmetric(group, W, si, d, aheadInt, behind, jump, lead, unlockedFor(si))
+								f(sc)
+							}
+						}
+					}
+				}
+			}
 		}
 	}
 }
